@@ -239,6 +239,13 @@ def record_compute_features(case, call=None, stub=None, opts_obj=None, repeat=1)
                     # array is refilled in place before the judged call - a result depends on the values of its arguments only
                     sig_run[:] = sig if rep == repeat - 1 else sig[::-1]
                 df = (call or compute_features)(sig_run, fs, f_range, **opts_run)
+                if rep < repeat - 1 and hasattr(df, 'columns') and case.get('k', 0) % 4 < 2:
+                    # the user works on the table the earlier call returned (unit conversion in place, a dropped column): a returned table is a
+                    # value of its own - the next call with the same arguments returns the analysis again, not the edited object
+                    for col in [c_ for c_ in df.columns if not c_.startswith('sample_')][::2]:
+                        df[col] = -7
+                    if len(df.columns) > 3:
+                        df.drop(columns=[df.columns[-1]], inplace=True)
         except Exception as ex:       # the raise is the event
             raised = type(ex).__name__ + ':' + str(ex)[:80]
     thr_full = dict(DEFAULT_THR)
